@@ -199,7 +199,7 @@ def run_recorder(ck, cmd_args, out, timeout=3600):
         except Exception:
             pass
         return None, {"rc": rc, "cur": cur, "stderr": se[-500:]}
-    lines = [l for l in so.strip().splitlines() if l.startswith("{")]
+    lines = [l for l in so.strip().split("\n") if l.startswith("{")]
     return json.loads(lines[-1]), None
 
 
